@@ -350,3 +350,75 @@ func c13loadApplies(c *Ctx) {
 		return true, ""
 	})
 }
+
+// c13kubeTombstone (R13): what the informer delivers. client-go hands OnDelete the deleted object — or, when the watch
+// missed the deletion (it happened while the connection was down and was noticed by the re-list), a
+// cache.DeletedFinalStateUnknown tombstone that carries the last known state. A path of OnDelete that returns without
+// examining the address set must therefore have found the argument to be neither: it has tested it (or what a tombstone
+// carries) against *v1.Endpoints AND tested it against the tombstone type. A handler that only knows *v1.Endpoints
+// treats the tombstone as a foreign object, and the addresses of an Endpoints object deleted during a disconnect stay
+// published for good (the model of the deliverer's output, as C17.R10 has it for the YAML decoder).
+func c13kubeTombstone(c *Ctx) {
+	rule := "C13.R13"
+	pkg := "zrpc/resolver/internal/kube"
+	f := c.fn(rule, pkg, "(*EventHandler).OnDelete")
+	if f == nil {
+		return
+	}
+	if len(f.Params) < 2 {
+		c.R.Undecided(rule, pkg+".(*EventHandler).OnDelete", "OnDelete has the object parameter", "not found")
+		return
+	}
+	objP := f.Params[1]
+	assertedName := func(s *px.Sym) string {
+		if s == nil || s.Kind != px.KTypeAssert {
+			return ""
+		}
+		ta, ok := s.V.(*ssa.TypeAssert)
+		if !ok {
+			return ""
+		}
+		t := ta.AssertedType
+		if p, ok := t.(*types.Pointer); ok {
+			t = p.Elem()
+		}
+		if n, ok := t.(*types.Named); ok && n.Obj().Pkg() != nil {
+			return n.Obj().Pkg().Path() + "." + n.Obj().Name()
+		}
+		return ""
+	}
+	ps := c.paths(rule, f, px.Config{MaxVisits: 2, MaxPaths: 100000, Inline: func(ci *px.CallInfo, d int) bool {
+		return ci.Static != nil && ci.Static.Pkg == f.Pkg && d < 2 && ci.Static.Name() != "notify"
+	}})
+	c.forall(rule, pkg+".(*EventHandler).OnDelete#tombstone", "a delete event is left unapplied only after the object was found to be neither an *v1.Endpoints nor the informer's DeletedFinalStateUnknown tombstone (a deletion missed by the watch arrives as a tombstone carrying the last known state)", f, ps, func(p *px.Path) (bool, string) {
+		if p.Exit != px.ExitReturn || p.Has(lockOn("lock", "Lock")) {
+			return true, ""
+		}
+		sawEndpoints, sawTomb := false, false
+		for i := range p.Events {
+			e := &p.Events[i]
+			if e.Kind != px.EvBranch {
+				continue
+			}
+			cn := e.Cond.Strip(false)
+			if cn.Kind != px.KExtract || cn.Index != 1 || cn.X == nil || cn.X.Kind != px.KTypeAssert {
+				continue
+			}
+			switch assertedName(cn.X) {
+			case "k8s.io/api/core/v1.Endpoints":
+				sawEndpoints = true
+			case "k8s.io/client-go/tools/cache.DeletedFinalStateUnknown":
+				if dependsOn(p, cn.X.X, p.ParamSym(objP)) {
+					sawTomb = true
+				}
+			}
+		}
+		if !sawEndpoints {
+			return false, "a delete event is dropped without a type test of the object"
+		}
+		if !sawTomb {
+			return false, "an object that is not an *v1.Endpoints is dropped without testing for cache.DeletedFinalStateUnknown: a deletion the watch missed (delivered as a tombstone after the re-list) never removes the addresses"
+		}
+		return true, ""
+	})
+}
